@@ -181,6 +181,10 @@ type faultReader struct {
 	resume   []byte
 	failed   bool
 	failures int
+	// eager: the error comes back TOGETHER with the last bytes the source has (n > 0 and err != nil in one
+	// Read, which the io.Reader contract allows and which files, pipes and TLS connections do) instead of
+	// by a separate (0, err) read
+	eager bool
 }
 
 func (f *faultReader) Read(p []byte) (int, error) {
@@ -206,6 +210,11 @@ func (f *faultReader) Read(p []byte) (int, error) {
 	}
 	copy(p, f.data[f.pos:f.pos+n])
 	f.pos += n
+	if f.eager && f.pos >= len(f.data) {
+		f.failed = true
+		f.failures++
+		return n, f.failErr
+	}
 	return n, nil
 }
 
